@@ -104,6 +104,118 @@ def _receiver_chain(t: Term) -> List[Term]:
     return out
 
 
+def bare_flag_value(ck, rule):
+    """argparse: an option declared with nargs='?' may be given WITHOUT a value ([-o [OUTPUTFILE]] in the usage line); the value is
+    then `const` - None unless declared - not `default`. An option whose default is a usable object (sys.stdout) and whose consumers
+    never test for None turns `coma ... -o` into a run that does all the work and ends with AttributeError on None."""
+    from ..rules.common import option_declarations
+    p = ck.ctx.p
+    ck.clause(rule, "an option that may be given without a value (nargs='?') and has a non-None default declares the value of the bare "
+                    "flag (const=...), or its consumers handle None: otherwise `-o` alone ends the run with AttributeError after all the work")
+    parse, decls = option_declarations(ck)
+    n = 0
+    for d in decls:
+        kw = {k.arg: k.value for k in d.keywords if k.arg}
+        if not (isinstance(kw.get("nargs"), ast.Constant) and kw["nargs"].value == "?"):
+            continue
+        n += 1
+        dest = kw["dest"].value if isinstance(kw.get("dest"), ast.Constant) else None
+        flags = [a.value for a in d.args if isinstance(a, ast.Constant)]
+        if dest is None:
+            long = [f for f in flags if f.startswith("--")]
+            dest = (long[0][2:] if long else flags[0].lstrip("-")).replace("-", "_") if flags else None
+        default = kw.get("default")
+        construct = f"Args.parse:{flags[0] if flags else dest}:bare-flag"
+        w = where(parse, d)
+        if default is None or (isinstance(default, ast.Constant) and default.value is None):
+            ck.ok(rule, construct, w, "the default is None as well: consumers have to handle it anyway")
+            continue
+        if "const" in kw and not (isinstance(kw["const"], ast.Constant) and kw["const"].value is None):
+            ck.ok(rule, construct, w, f"the bare flag yields {ast.unparse(kw['const'])}")
+            continue
+        handled = False
+        for f in p.nontest_functions():
+            if f.is_lambda or not f.module.name.startswith("src."):
+                continue
+            for x in ast.walk(f.node):
+                if isinstance(x, ast.Compare) and any(isinstance(o, (ast.Is, ast.IsNot)) for o in x.ops) \
+                        and isinstance(x.left, ast.Attribute) and x.left.attr == dest \
+                        and any(isinstance(c, ast.Constant) and c.value is None for c in x.comparators):
+                    handled = True
+                if isinstance(x, ast.BoolOp) and isinstance(x.op, ast.Or) and isinstance(x.values[0], ast.Attribute) and x.values[0].attr == dest:
+                    handled = True
+        if handled:
+            ck.ok(rule, construct, w, "consumers test the value for None")
+            continue
+        ck.violation(rule, construct, w,
+                     f"`{' / '.join(flags)}` may be given without a value (nargs='?'): argparse then stores const - None, not the default "
+                     f"{ast.unparse(default)} - and nothing that reads args.{dest} tests for None: the run does all its work and ends "
+                     "with AttributeError when the XMAP is written (usage line: [-o [OUTPUTFILE]], help: 'Stdout is used if omitted')",
+                     found=f"nargs='?', default={ast.unparse(default)}, no const", required=f"const={ast.unparse(default)}")
+    ck.floor(rule + " options that may be given without a value", n, 1)
+
+
+def rewinds_before_sniffing(ck, rule):
+    """A reader that looks at the head of its file parameter, rewinds it (`file.seek(0, 0)`) and then parses it needs the START of
+    the file for the look as well. With a fresh handle the two coincide; a handle that is kept in an attribute and handed over
+    once per message (the -D handlers read the benchmark file for every plotted alignment) is at EOF from the second call on:
+    the head is empty, the format is 'unknown', the exception ends the run."""
+    p = ck.ctx.p
+    ck.clause(rule, "a reader that rewinds its file parameter after looking at its head also rewinds it before the look whenever a caller "
+                    "keeps the handle and passes it again (the -D handlers read the benchmark file once per alignment): otherwise the "
+                    "second call sniffs an exhausted handle and raises")
+    n_readers = 0
+    for f in p.nontest_functions():
+        if f.is_lambda or not f.module.name.startswith("src."):
+            continue
+        for prm in f.call_params():
+            seeks = [n for n in ast.walk(f.node) if isinstance(n, ast.Call) and isinstance(n.func, ast.Attribute) and n.func.attr == "seek"
+                     and isinstance(n.func.value, ast.Name) and n.func.value.id == prm.name
+                     and n.args and isinstance(n.args[0], ast.Constant) and n.args[0].value == 0]
+            if not seeks:
+                continue
+            n_readers += 1
+            first_seek = min(seeks, key=lambda n: (n.lineno, n.col_offset))
+            early = [n for n in ast.walk(f.node) if isinstance(n, ast.Name) and n.id == prm.name and isinstance(n.ctx, ast.Load)
+                     and (n.lineno, n.col_offset) < (first_seek.lineno, first_seek.col_offset)
+                     and not any(n is x for s_ in seeks for x in ast.walk(s_))]
+            # `file.name`, `file.closed` are no reads of the content
+            parents = {c: par for par in ast.walk(f.node) for c in ast.iter_child_nodes(par)}
+            early = [n for n in early if not (isinstance(parents.get(n), ast.Attribute) and parents[n].attr in ("name", "closed", "mode"))]
+            construct = f"{short(f)}:{prm.name}:rewind"
+            if not early:
+                ck.ok(rule, construct, where(f, first_seek), "the handle is rewound before it is first read")
+                continue
+            # who passes a kept handle?
+            kept = []
+            for site in ck.ctx.cg.all_sites():
+                if site.caller.module.is_test or not any(c.kind == "fn" and c.fn is f for c in site.callees):
+                    continue
+                args = list(site.node.args) + [k.value for k in site.node.keywords]
+                for a in args:
+                    if isinstance(a, ast.Attribute) and isinstance(a.value, ast.Name) and a.value.id == site.caller.self_name \
+                            and site.caller.cls is not None and _is_message_handler(p, site.caller):
+                        kept.append((site, a))
+            if kept:
+                site, a = kept[0]
+                ck.violation(rule, construct, where(f, early[0]),
+                             f"the head of `{prm.name}` is read before the handle is rewound, and {short(site.caller)} "
+                             f"({site.where}) passes the handle it keeps in {ast.unparse(a)} for every message: from the second call on "
+                             "the look starts at EOF, nothing is recognised and the exception ends the run (every `-D -a <file>` run "
+                             "with two plotted alignments)",
+                             found=f"line {early[0].lineno}: `{prm.name}` read; line {first_seek.lineno}: {ast.unparse(first_seek)}",
+                             required=f"{ast.unparse(first_seek)} before the first read as well")
+            else:
+                ck.ok(rule, construct, where(f, first_seek), "looked at, then rewound; no caller keeps the handle across calls")
+    ck.floor(rule + " readers that rewind their file parameter", n_readers, 1)
+
+
+def _is_message_handler(p, fn) -> bool:
+    """a method of a class that defines `handle` (dispatcher extension): its object lives for the whole run, the method runs per message"""
+    c = fn.cls
+    return c is not None and (fn.name == "handle" or "handle" in c.methods)
+
+
 def none_default_numeric_fields(ck, rule):
     """A constructor field whose default is None and that some code uses as a number (an argument of range(), an operand of
     arithmetic or of an order comparison) must be given a number at every construction: a factory that fills the default in
@@ -490,6 +602,10 @@ def run(ck):
     if not n_hit:
         ck.ok("C07.G14", "run path", "src/", f"{n_fn} functions: every attribute read under an isinstance guard exists on the guarded class(es)")
     none_default_numeric_fields(ck, "C07.G24")
+    if ck.wants("C07.G25"):
+        rewinds_before_sniffing(ck, "C07.G25")
+    if ck.wants("C07.G26"):
+        bare_flag_value(ck, "C07.G26")
     ck.clause("C07.G23", "output directories are created with exist_ok=True: the same command run twice (or two modes into one place) "
                          "must not abort on the directory the first run left - argparse has already truncated the -o file by then")
     n_mk = 0
